@@ -36,49 +36,131 @@ MANIFEST = dict(
          "interposed write/rename/open/getpid, and by an end-to-end stream against the real server with "
          "bodies decoded by Python zlib and strace fault injection",
     note="partial: zlib is external (the coded form is a parameter `compress`; that it decodes to the "
-         "identity body is validated end-to-end, not proved). Assumptions: the validator (ETag = hash of "
-         "inode,size,mtime-ns) distinguishes source versions; reading the source is atomic w.r.t. its "
-         "stat; zlib output is a function of (content, coding). trusted: Lean kernel, hand-written model "
-         "validated by the h_deflate and e2e correspondences",
+         "identity body is validated with an independent decoder on every coded body, not proved), and the "
+         "stream assembly over memory/file chunks (deflate_compress_response, stream_deflate_*) is validated "
+         "(body layouts, sizes around 64 KiB / 128 KiB / 2 MiB buffers) rather than modelled. Assumptions: the "
+         "validator (ETag = 32-bit hash of inode,size,mtime-ns) distinguishes source versions; reading the "
+         "source is atomic w.r.t. its stat (stat cache validity: 1 s); zlib output is a function of (content, "
+         "coding). trusted: Lean kernel, hand-written model validated by the h_deflate and e2e "
+         "correspondences, strace fault injection",
     tech="Lean 4 proof over hand-written model + differential correspondence (in-process C harness with "
          "scripted syscall faults) + end-to-end correspondence (real server, strace injection)",
     ref="6/C19")
 
-# Repair proposed for the defect this check reports on the pinned tree (weights ignored:
-# "Accept-Encoding: gzip;q=0, deflate" is answered with Content-Encoding: gzip).  The Lean scanner
-# models exactly this loop.  Replace the `for (; *value; ++value) { ... }` loop of
-# mod_deflate_choose_encoding() (src/mod_deflate.c) by:
+LEVEL = "proof"
+EXPLANATION = ("claimed partial: proof for negotiation, header adjustments and the cache protocol over the model; "
+               "zlib (the coded form decodes to its input) and the chunk-wise stream assembly are validated with an "
+               "independent decoder on every coded body (in-process and end-to-end), not proved")
+
+# Repair proposed for the defect this check reports on the pinned tree: mod_deflate_choose_encoding()
+# ignores the weight parameter, so "Accept-Encoding: gzip;q=0, deflate" is answered with
+# Content-Encoding: gzip (RFC 9110 12.4.2: weight 0 means "not acceptable").  The Lean scanner
+# (Model/Deflate.lean `entries`) models exactly the repaired loop below (git diff against src/mod_deflate.c).
 PROPOSED_FIX = r'''
-        while (*value) {
-            const char *v;
-            int enc = 0;
-            while (*value == ' ' || *value == '\t' || *value == ',') ++value;
-            v = value;
-            while (*value!=' ' && *value!='\t' && *value!=',' && *value!=';'
-                   && *value!='\0')
-                ++value;
-            switch (value - v) {
-              /* ... unchanged ladder, but with `enc = HTTP_ACCEPT_ENCODING_X;`
-               *     instead of `accept_encoding |= HTTP_ACCEPT_ENCODING_X;` ... */
-            }
-            while (*value == ' ' || *value == '\t') ++value;
-            while (*value == ';') {
-                /* parameters; weight "q=0" ("q=0." "q=0.0" "q=0.00" "q=0.000")
-                 * means "not acceptable" (RFC 9110 12.4.2, 12.5.3) */
-                do { ++value; } while (*value == ' ' || *value == '\t');
-                if ((value[0] == 'q' || value[0] == 'Q')
-                    && value[1] == '=' && value[2] == '0') {
-                    const char *q = value+3;
-                    if (*q == '.') { do { ++q; } while (*q == '0'); }
-                    if (*q == '\0' || *q == ',' || *q == ';'
-                        || *q == ' ' || *q == '\t')
-                        enc = 0;
-                }
-                while (*value != ';' && *value != ',' && *value != '\0')
-                    ++value;
-            }
-            accept_encoding |= enc;
-        }
+diff --git a/src/mod_deflate.c b/src/mod_deflate.c
+index 4e8b0f0..5c8d2bd 100644
+--- a/src/mod_deflate.c
++++ b/src/mod_deflate.c
+@@ -1794,69 +1794,84 @@ static int mod_deflate_choose_encoding (const char *value, plugin_data *p, const
+ 	UNUSED(value);
+ 	UNUSED(label);
+       #else
+-        for (; *value; ++value) {
++        while (*value) {
+             const char *v;
+-            while (*value == ' ' || *value == ',') ++value;
++            int enc = 0;
++            while (*value == ' ' || *value == '\t' || *value == ',') ++value;
+             v = value;
+-            while (*value!=' ' && *value!=',' && *value!=';' && *value!='\0')
++            while (*value!=' ' && *value!='\t' && *value!=',' && *value!=';'
++                   && *value!='\0')
+                 ++value;
+             switch (value - v) {
+               case 2:
+                #ifdef USE_BROTLI
+                 if (0 == memcmp(v, "br", 2))
+-                    accept_encoding |= HTTP_ACCEPT_ENCODING_BR;
++                    enc = HTTP_ACCEPT_ENCODING_BR;
+                #endif
+                 break;
+               case 4:
+                #ifdef USE_ZLIB
+                 if (0 == memcmp(v, "gzip", 4))
+-                    accept_encoding |= HTTP_ACCEPT_ENCODING_GZIP;
++                    enc = HTTP_ACCEPT_ENCODING_GZIP;
+                #endif
+                #ifdef USE_ZSTD
+                 #ifdef USE_ZLIB
+                 else
+                 #endif
+                 if (0 == memcmp(v, "zstd", 4))
+-                    accept_encoding |= HTTP_ACCEPT_ENCODING_ZSTD;
++                    enc = HTTP_ACCEPT_ENCODING_ZSTD;
+                #endif
+                 break;
+               case 5:
+                #ifdef USE_BZ2LIB
+                 if (0 == memcmp(v, "bzip2", 5))
+-                    accept_encoding |= HTTP_ACCEPT_ENCODING_BZIP2;
++                    enc = HTTP_ACCEPT_ENCODING_BZIP2;
+                #endif
+                 break;
+               case 6:
+                #ifdef USE_ZLIB
+                 if (0 == memcmp(v, "x-gzip", 6))
+-                    accept_encoding |= HTTP_ACCEPT_ENCODING_X_GZIP;
++                    enc = HTTP_ACCEPT_ENCODING_X_GZIP;
+                #endif
+                 break;
+               case 7:
+                #ifdef USE_ZLIB
+                 if (0 == memcmp(v, "deflate", 7))
+-                    accept_encoding |= HTTP_ACCEPT_ENCODING_DEFLATE;
++                    enc = HTTP_ACCEPT_ENCODING_DEFLATE;
+                #endif
+                #ifdef USE_BZ2LIB
+                 if (0 == memcmp(v, "x-bzip2", 7))
+-                    accept_encoding |= HTTP_ACCEPT_ENCODING_X_BZIP2;
++                    enc = HTTP_ACCEPT_ENCODING_X_BZIP2;
+                #endif
+                 break;
+              #if 0
+               case 8:
+                 if (0 == memcmp(v, "identity", 8))
+-                    accept_encoding |= HTTP_ACCEPT_ENCODING_IDENTITY;
++                    enc = HTTP_ACCEPT_ENCODING_IDENTITY;
+                 else if (0 == memcmp(v, "compress", 8))
+-                    accept_encoding |= HTTP_ACCEPT_ENCODING_COMPRESS;
++                    enc = HTTP_ACCEPT_ENCODING_COMPRESS;
+                 break;
+              #endif
+               default:
+                 break;
+             }
+-            if (*value == ';') {
+-                while (*value != ',' && *value != '\0') ++value;
++            while (*value == ' ' || *value == '\t') ++value;
++            while (*value == ';') {
++                /* parameters; weight "q=0" ("q=0." "q=0.0" "q=0.00" "q=0.000")
++                 * means "not acceptable" (RFC 9110 12.4.2, 12.5.3) */
++                do { ++value; } while (*value == ' ' || *value == '\t');
++                if ((value[0] == 'q' || value[0] == 'Q')
++                    && value[1] == '=' && value[2] == '0') {
++                    const char *q = value+3;
++                    if (*q == '.') { do { ++q; } while (*q == '0'); }
++                    if (*q == '\0' || *q == ',' || *q == ';'
++                        || *q == ' ' || *q == '\t')
++                        enc = 0;
++                }
++                while (*value != ';' && *value != ',' && *value != '\0')
++                    ++value;
+             }
+-            if (*value == '\0') break;
++            accept_encoding |= enc;
+         }
+       #endif
+ 
 '''
 
 HX = C.hx
@@ -835,7 +917,7 @@ def h1_get(port, path, ae=None, inm=None, method=b"GET", ver=b"1.1", extra=()):
     for k, v in extra:
         req += k + b": " + v + b"\r\n"
     req += b"Connection: close\r\n\r\n"
-    data, closed = e2e.h1_exchange(port, [req], read_timeout=10.0)
+    data, closed = e2e.h1_exchange(port, [req], read_timeout=60.0)     # (the server closes: no waiting when it answers)
     if not data:
         return None, "no-response"
     try:
@@ -1269,7 +1351,12 @@ def e2e_fault_one(E, bd, fname, label, seed):
             with E.lock:
                 E.ctx.dist["e2e:fault:not-fired"] += 1
             return
-        alive = srv.alive() and srv.proc.poll() is None
+        if "killed by SIGKILL" in sout:
+            try:
+                srv.proc.wait(10)
+            except subprocess.TimeoutExpired:
+                pass
+        alive = srv.alive()
         if r is not None:
             # a response under a failed writer must still be right
             if r["status"] == 200:
@@ -1338,7 +1425,7 @@ def run_e2e(ctx):
         ctx.broken.append({"kind": "server-build", "names": ["lighttpd"], "log": (err or "")[-3000:]})
         return
     rng = ctx.rng
-    sizes = SIZES_Q if ctx.quick else SIZES_T
+    sizes = sorted(set(SIZES_Q if ctx.quick else SIZES_T))
     files = []
     for n in sizes:
         for kind in ("t", "r"):
